@@ -205,10 +205,6 @@ theorem C09_slot_count {c : Conv} {tl : List (Nat × List MEv)} {vol : Option St
     exact hds
 
 
-theorem wfL_of_forall : ∀ (ts : List Riff.Tree), (∀ t ∈ ts, t.wf) → Riff.Tree.wfL ts
-  | [], _ => trivial
-  | t :: ts, h => ⟨h t (by simp), wfL_of_forall ts (fun x hx => h x (by simp [hx]))⟩
-
 /-- `mds_shape`: the exported bytes are the serialisation of the tree
 RIFF `MDS0` [ `ver ` (table version), `grp `, `seq `, LIST `dblk` (one `glob`/`pcmh` child per used
 data item), `pcmd` ], and (for a file below 4 GiB) the reader-side walker gives that tree back. -/
